@@ -100,6 +100,19 @@ def checkHashTd (kvs okv : List (String × String)) : String := Id.run do
       if tt != cnfTT && P == Constants.u64largest then
         return s!"FAIL SPEC top-down compilation with the hash-identified node store (64-bit field) denotes {tt}, the CNF {cnfTT}"
     | none => pure ()
+  -- conditioning the hash-identified store's result and its negation (64-bit field)
+  if P == Constants.u64largest && lookup okv "stt" == some cnfTT then
+    let conds := ((lookup okv "sconds").getD "").splitOn ","
+    if conds.length == 2 * n then
+      for v in List.range n do
+        for (b, k) in [(false, 0), (true, 1)] do
+          match (conds.getD (2 * v + k) "").splitOn "." with
+          | [c1, c2] =>
+            let want1 := ttString n (fCond (cnfFn cs) v b)
+            let want2 := ttString n (fCond (fNot (cnfFn cs)) v b)
+            if c1 != want1 then return s!"FAIL SPEC hash-identified store: condition(result, x{v}={b}) denotes {c1}, the restricted function is {want1}"
+            if c2 != want2 then return s!"FAIL SPEC hash-identified store: condition(¬result, x{v}={b}) denotes {c2}, the restricted function is {want2}"
+          | _ => return "FAIL PARSE sconds entry"
   if lookup okv "stt" == some cnfTT then
     if let some hs := (lookup okv "hsem").bind parseNat? then
       if hs != want then return s!"FAIL SPEC the semantic hash of the hash-identified store's result is {hs}, the weighted sum of the CNF's function is {want}"
